@@ -713,3 +713,804 @@ Section Pure.
     (h <= f)%nat -> (h <= maxdepth)%nat -> le4 (unfoldB h o r) (checkB f O [] o r).
   Proof. intros h o r f Hf Hd. apply unfoldB_le_checkB; [exact Hf | exact Hd | intros v []]. Qed.
 End Pure.
+
+(* ================================================================== *)
+(* E. the definite part of Check/V1.check is checkB                     *)
+(* ================================================================== *)
+
+Lemma union_all_dv : forall hs : list (unit -> res),
+  (forall h, In h hs -> fst (h tt) <> []) ->
+  dv (fst (union_all hs)) = or4_list (map (fun h => dv (fst (h tt))) hs).
+Proof.
+  intros hs Hne. rewrite (dv_seteq _ _ (union_all_early_exit hs Hne)).
+  induction hs as [|h hs IH]; [reflexivity|].
+  assert (Hrest : forall h', In h' hs -> fst (h' tt) <> []) by (intros h' Hin; apply Hne; right; exact Hin).
+  pose proof (union_all_full_nonempty hs Hrest) as Hn.
+  pose proof (Hne h (or_introl eq_refl)) as Hh.
+  simpl. destruct (h tt) as [s t]. destruct (union_all_full hs) as [s' t'] eqn:Hu. simpl in *.
+  rewrite dv_lift2_union by assumption. f_equal. apply IH. exact Hrest.
+Qed.
+
+Lemma inter_all_dv : forall hs : list (unit -> res),
+  (forall h, In h hs -> fst (h tt) <> []) ->
+  dv (fst (inter_all hs)) = and4_list (map (fun h => dv (fst (h tt))) hs).
+Proof.
+  induction hs as [|h hs IH]; intro Hne; [reflexivity|].
+  assert (Hrest : forall h', In h' hs -> fst (h' tt) <> []) by (intros h' Hin; apply Hne; right; exact Hin).
+  pose proof (inter_all_nonempty hs Hrest) as Hn.
+  pose proof (Hne h (or_introl eq_refl)) as Hh.
+  simpl. destruct (h tt) as [s t]. destruct (inter_all hs) as [s' t'] eqn:Hu. simpl in *.
+  rewrite dv_lift2_inter by assumption. f_equal. apply IH. exact Hrest.
+Qed.
+
+Section V1Bridge.
+  Variable m : model.
+  Variable conds : list cid.
+  Variable store : list tuple.
+  Variable subj : subject.
+
+  Section OneCall.
+    Variable rd : reldef.
+    Variable o : obj.
+    Variable r : rid.
+    Variable dispatch : obj -> rid -> unit -> res.
+    Variable computed : rid -> res.
+    Hypothesis Hdisp : forall o' r', fst (dispatch o' r' tt) <> [].
+    Hypothesis Hcomp : forall r', fst (computed r') <> [].
+
+    Let td := fun o' r' => dv (fst (dispatch o' r' tt)).
+    Let tc := fun r' => dv (fst (computed r')).
+
+    Lemma userset_handler_dv :
+      dv (fst (userset_handler m conds store rd o r dispatch tt)) = usersetB m conds store rd o r td.
+    Proof.
+      unfold userset_handler, usersetB.
+      match goal with |- context [passing ?X] => set (ts := X) end.
+      destruct (passing ts) as [|t0 ps] eqn:Hp; [destruct (has_err ts); reflexivity|].
+      rewrite fst_let_pair. remember (t0 :: ps) as l eqn:Hl. clear Hl Hp.
+      rewrite union_all_dv.
+      - f_equal. induction l as [|a l IHl]; [reflexivity|].
+        cbn [flat_map]. rewrite map_app. f_equal; [destruct (t_sub a); reflexivity | exact IHl].
+      - intros h Hin. apply in_flat_map in Hin. destruct Hin as [t [_ Hh]].
+        destruct (t_sub t) as [x|x|o' r']; try (destruct Hh; fail).
+        destruct Hh as [Hh|[]]. subst h. apply Hdisp.
+    Qed.
+
+    Lemma ttu_eval_dv : forall ts c,
+      dv (fst (ttu_eval m conds store o ts c dispatch)) = ttuB m conds store o ts c td.
+    Proof.
+      intros ts c. unfold ttu_eval, ttuB.
+      match goal with |- context [passing ?X] => set (tl := X) end.
+      destruct (passing tl) as [|t0 ps] eqn:Hp; [destruct (has_err tl); reflexivity|].
+      rewrite fst_let_pair. remember (t0 :: ps) as l eqn:Hl. clear Hl Hp.
+      rewrite union_all_dv.
+      - f_equal. induction l as [|a l IHl]; [reflexivity|].
+        cbn [flat_map]. rewrite map_app. f_equal; [|exact IHl].
+        destruct (t_sub a) as [o'|x|x y]; try reflexivity.
+        destruct (rel_defined m (otype o') c); reflexivity.
+      - intros h Hin. apply in_flat_map in Hin. destruct Hin as [t [_ Hh]].
+        destruct (t_sub t) as [o'|x|x y]; try (destruct Hh; fail).
+        destruct (rel_defined m (otype o') c); [|destruct Hh].
+        destruct Hh as [Hh|[]]. subst h. apply Hdisp.
+    Qed.
+
+    Lemma this_handlers_nonempty : forall h,
+      In h (this_handlers m conds store subj rd o r dispatch) -> fst (h tt) <> [].
+    Proof.
+      intros h Hin. unfold this_handlers in Hin. apply in_app_iff in Hin. destruct Hin as [Hin|Hin].
+      { destruct (directly_related subj (rd_restr rd)); [|destruct Hin].
+        destruct Hin as [Hin|[]]. subst h. apply direct_user_tuple_nonempty. }
+      apply in_app_iff in Hin. destruct Hin as [Hin|Hin].
+      { destruct (publicly_assignable subj (rd_restr rd)); [|destruct Hin].
+        destruct Hin as [Hin|[]]. subst h. apply public_assignable_nonempty. }
+      destruct (has_userset_restr (rd_restr rd)); [|destruct Hin].
+      destruct Hin as [Hin|[]]. subst h. unfold userset_handler.
+      match goal with |- context [passing ?X] => set (ts := X) end.
+      destruct (passing ts) as [|t0 ps]; [destruct (has_err ts); discriminate|].
+      rewrite fst_let_pair. apply union_all_nonempty. intros h Hin.
+      apply in_flat_map in Hin. destruct Hin as [t [_ Hh]].
+      destruct (t_sub t) as [x|x|o' r']; try (destruct Hh; fail).
+      destruct Hh as [Hh|[]]. subst h. apply Hdisp.
+    Qed.
+
+    Lemma this_dv :
+      dv (fst (union_all (this_handlers m conds store subj rd o r dispatch))) = thisB m conds store subj rd o r td.
+    Proof.
+      rewrite union_all_dv by exact this_handlers_nonempty.
+      unfold this_handlers, thisB. f_equal.
+      destruct (directly_related subj (rd_restr rd)), (publicly_assignable subj (rd_restr rd)),
+        (has_userset_restr (rd_restr rd)); simpl; try rewrite userset_handler_dv; reflexivity.
+    Qed.
+
+    Lemma eval_with_dv : forall rw,
+      dv (fst (eval_with m conds store subj rd o r dispatch computed rw)) =
+      evalB m conds store subj rd o r td tc rw.
+    Proof.
+      intro rw. induction rw as [|r'|ts c|l IH|l IH|b s IHb IHs] using rewrite_ind'.
+      - exact this_dv.
+      - reflexivity.
+      - apply ttu_eval_dv.
+      - cbn [eval_with evalB]. rewrite union_all_dv.
+        + f_equal. rewrite map_map. apply map_ext_in. intros x Hx. rewrite Forall_forall in IH. exact (IH x Hx).
+        + intros h Hin. apply in_map_iff in Hin. destruct Hin as [x [Hh Hx]]. subst h.
+          apply eval_with_nonempty; assumption.
+      - cbn [eval_with evalB]. rewrite inter_all_dv.
+        + f_equal. rewrite map_map. apply map_ext_in. intros x Hx. rewrite Forall_forall in IH. exact (IH x Hx).
+        + intros h Hin. apply in_map_iff in Hin. destruct Hin as [x [Hh Hx]]. subst h.
+          apply eval_with_nonempty; assumption.
+      - cbn [eval_with evalB].
+        pose proof (eval_with_nonempty m conds store subj rd o r dispatch computed Hdisp Hcomp b) as Hnb.
+        pose proof (eval_with_nonempty m conds store subj rd o r dispatch computed Hdisp Hcomp s) as Hns.
+        destruct (eval_with m conds store subj rd o r dispatch computed b) as [sb tb].
+        destruct (eval_with m conds store subj rd o r dispatch computed s) as [ss ts].
+        simpl in *. rewrite dv_lift2_excl by assumption. rewrite IHb, IHs. reflexivity.
+    Qed.
+  End OneCall.
+
+  Variable pathx : list (tid * rid).
+  Variable maxdepth : nat.
+
+  (* the definite outcomes of the default-engine model are exactly what checkB computes *)
+  Theorem check_dv : forall f d V o r,
+    dv (fst (check m conds store subj pathx maxdepth f d V o r)) = checkB m conds store subj pathx maxdepth f d V o r.
+  Proof.
+    induction f as [|f IH]; intros d V o r; [reflexivity|].
+    rewrite check_unfold. cbn [checkB].
+    destruct (Nat.eqb d maxdepth); [reflexivity|].
+    destruct (existsb (atom_eqb (o, r)) V); [reflexivity|].
+    destruct (subject_eqb subj (SSet o r)); [reflexivity|].
+    destruct (get_relation m (otype o) r) as [rd|]; [|reflexivity].
+    destruct (negb (path_exists pathx (otype o) r)); [reflexivity|].
+    rewrite eval_with_dv by (intros; apply check_nonempty).
+    apply evalB_ext; intros; apply IH.
+  Qed.
+End V1Bridge.
+
+(* ================================================================== *)
+(* F. the cached engine                                                *)
+(* ================================================================== *)
+
+Lemma dva_agree : forall a a' z,
+  definite a = true -> definite a' = true -> le4 (dva a) z -> le4 (dva a') z -> cons4 z -> a = a'.
+Proof. intros a a' z Ha Ha'; destruct a, a'; try discriminate Ha; try discriminate Ha'; b4_tac. Qed.
+
+Section Cached.
+  Variable m : model.
+  Variable conds : list cid.
+  Variable store : list tuple.
+  Variable subj : subject.
+  Variable pathx : list (tid * rid).
+  Variable maxdepth : nat.
+
+  Local Notation uB := (unfoldB m conds store subj pathx).
+  Local Notation cB := (checkB m conds store subj pathx maxdepth).
+  Local Notation chS := (checkS m conds store subj pathx maxdepth).
+  Local Notation rtop := (resolve_top m conds store subj pathx maxdepth).
+
+  (* every entry is a definite value of a finite unfolding of its sub-problem: THE path-independent
+     value (unfoldB_agree: at most one) *)
+  Definition valid_at (H : nat) (c : cache) : Prop :=
+    forall k b, clook c k = Some b -> le4 (dvb b) (uB H (fst k) (snd k)).
+  Definition valid (c : cache) : Prop := exists H, valid_at H c.
+
+  Lemma valid_at_mono : forall H H' c, (H <= H')%nat -> valid_at H c -> valid_at H' c.
+  Proof.
+    intros H H' c Hle Hv k b Hk. eapply le4_trans; [exact (Hv k b Hk) | apply unfoldB_mono; exact Hle].
+  Qed.
+
+  Lemma valid_nil : valid [].
+  Proof. exists O. intros k b Hk. discriminate Hk. Qed.
+
+  Lemma valid_at_cstore : forall H c k s,
+    valid_at H c -> le4 (dv s) (uB H (fst k) (snd k)) -> valid_at H (cstore c k s).
+  Proof.
+    intros H c k s Hv [Ht Hf]. unfold cstore.
+    destruct (omem AT s) eqn:Hat.
+    - intros k' b Hk. simpl in Hk. destruct (atom_eqb k' k) eqn:He; [|exact (Hv k' b Hk)].
+      apply atom_eqb_eq in He. subst k'. inversion Hk; subst b. split; simpl; [intros _; apply Ht; exact Hat | discriminate].
+    - destruct (omem AFn s) eqn:Haf; [|exact Hv].
+      intros k' b Hk. simpl in Hk. destruct (atom_eqb k' k) eqn:He; [|exact (Hv k' b Hk)].
+      apply atom_eqb_eq in He. subst k'. inversion Hk; subst b. split; simpl; [discriminate | intros _; apply Hf; exact Haf].
+  Qed.
+
+  Lemma oadd_nonempty : forall a s, oadd a s <> [].
+  Proof.
+    intros a s He. assert (Hin : In a (oadd a s)) by (apply In_oadd; left; reflexivity).
+    rewrite He in Hin. destruct Hin.
+  Qed.
+
+  (* ---- soundness w.r.t. the unfolding: R = le4, index = unfolding height of the entries ---- *)
+  Local Notation okL := (ok le4 valid_at).
+
+  Lemma lift_uB : forall f o r, liftable le4 (fun H => uB (H + f)%nat o r).
+  Proof. intros f o r x H H' Hle Hx. eapply le4_trans; [exact Hx | apply unfoldB_mono; lia]. Qed.
+
+  Lemma resolve_with_sound : forall enabled inner k f,
+    okL inner (fun H => uB (H + f)%nat (fst k) (snd k)) ->
+    okL (resolve_with enabled inner k) (fun H => uB (H + f)%nat (fst k) (snd k)).
+  Proof.
+    intros enabled inner k f Hok c H HI. unfold resolve_with.
+    destruct enabled; [|exact (Hok c H HI)].
+    destruct (Hok c H HI) as [H1 [Hle [HI1 [Hne HR]]]].
+    destruct (inner c) as [[s t] c'] eqn:Hin. cbn [fst snd] in *.
+    exists (H1 + f)%nat. split; [lia|].
+    assert (Hup : le4 (dv s) (uB (H1 + f + f)%nat (fst k) (snd k))).
+    { eapply le4_trans; [exact HR | apply unfoldB_mono; lia]. }
+    destruct (clook c k) as [b|] eqn:Hk; cbn [fst snd].
+    - split; [apply valid_at_cstore; [apply valid_at_mono with (H := H1); [lia | exact HI1] | exact HR]|].
+      split; [apply oadd_nonempty|].
+      rewrite dv_oadd, dva_ob. apply join4_le; [|exact Hup].
+      eapply le4_trans; [exact (HI k b Hk) | apply unfoldB_mono; lia].
+    - split; [apply valid_at_cstore; [apply valid_at_mono with (H := H1); [lia | exact HI1] | exact HR]|].
+      split; [exact Hne | exact Hup].
+  Qed.
+
+  Lemma leaf_okL : forall (x : res) (beta : nat -> b4),
+    fst x <> [] -> (forall H, le4 (dv (fst x)) (beta H)) -> okL (fun c => (x, c)) beta.
+  Proof.
+    intros x beta Hne Hle c H HI. exists H. cbn [fst snd].
+    split; [lia|]. split; [exact HI|]. split; [exact Hne | apply Hle].
+  Qed.
+
+  Theorem checkS_sound : forall enabled f d V o r,
+    okL (chS enabled f d V o r) (fun H => uB (H + f)%nat o r).
+  Proof.
+    intros enabled. induction f as [|f IH]; intros d V o r.
+    { apply leaf_okL; [discriminate | intro H; apply le4_bot]. }
+    cbn [checkS].
+    destruct (Nat.eqb d maxdepth); [apply leaf_okL; [discriminate | intro H; apply le4_bot]|].
+    destruct (existsb (atom_eqb (o, r)) V); [apply leaf_okL; [discriminate | intro H; apply le4_bot]|].
+    destruct (subject_eqb subj (SSet o r)) eqn:Hs.
+    { apply leaf_okL; [discriminate|]. intro H. rewrite Nat.add_succ_r. cbn [unfoldB]. rewrite Hs. apply le4_refl. }
+    destruct (get_relation m (otype o) r) as [rd|] eqn:Hg; [|apply leaf_okL; [discriminate | intro H; apply le4_bot]].
+    destruct (negb (path_exists pathx (otype o) r)) eqn:Hp.
+    { apply leaf_okL; [discriminate|]. intro H. rewrite Nat.add_succ_r. cbn [unfoldB]. rewrite Hs, Hg, Hp. apply le4_refl. }
+    apply ok_ext with (beta := fun H => evalB m conds store subj rd o r
+                                       (fun o' r' => uB (H + f)%nat o' r') (fun r' => uB (H + f)%nat o r') (rd_rw rd)).
+    - apply evalS_ok with (td := fun H o' r' => uB (H + f)%nat o' r') (tc := fun H r' => uB (H + f)%nat o r').
+      + exact or4_mono.
+      + exact and4_mono.
+      + exact excl4_mono.
+      + apply le4_refl.
+      + apply le4_refl.
+      + apply le4_refl.
+      + intros o' r'. apply lift_uB.
+      + intros rd' o' r' x H H' Hle Hx. eapply le4_trans; [exact Hx|].
+        apply usersetB_mono. intros; apply unfoldB_mono; lia.
+      + intros rd' o' r' rw x H H' Hle Hx. eapply le4_trans; [exact Hx|].
+        apply evalB_mono; intros; apply unfoldB_mono; lia.
+      + intros o' r'. apply (resolve_with_sound enabled _ (o', r') f). apply IH.
+      + intros r'. apply IH.
+    - intro H. rewrite Nat.add_succ_r. cbn [unfoldB]. rewrite Hs, Hg, Hp. reflexivity.
+  Qed.
+
+  Theorem resolve_top_sound : forall enabled fuel o r,
+    okL (rtop enabled fuel o r) (fun H => uB (H + fuel)%nat o r).
+  Proof.
+    intros enabled fuel o r. unfold resolve_top.
+    apply (resolve_with_sound enabled _ (o, r) fuel). apply checkS_sound.
+  Qed.
+
+  (* the invariant *)
+  Theorem resolve_top_valid : forall enabled fuel o r c,
+    valid c -> valid (snd (rtop enabled fuel o r c)).
+  Proof.
+    intros enabled fuel o r c [H Hv]. destruct (resolve_top_sound enabled fuel o r c H Hv) as [H' [_ [Hv' _]]].
+    exists H'. exact Hv'.
+  Qed.
+
+  (* a definite outcome of the cached engine is a definite value of the unfolding *)
+  Theorem resolve_top_definite : forall enabled fuel o r c a,
+    valid c -> definite a = true -> In a (fst (fst (rtop enabled fuel o r c))) ->
+    exists h, le4 (dva a) (uB h o r).
+  Proof.
+    intros enabled fuel o r c a [H Hv] Hd Hin.
+    destruct (resolve_top_sound enabled fuel o r c H Hv) as [H' [_ [_ [_ HR]]]].
+    exists (H' + fuel)%nat. eapply le4_trans; [apply dva_le_dv; exact Hin | exact HR].
+  Qed.
+
+  (* ---- the uncached definite outcomes survive: R = (fun x y => le4 y x), no invariant ---- *)
+  Definition ge4 (x y : b4) : Prop := le4 y x.
+  Definition Itrue (_ : nat) (_ : cache) : Prop := True.
+  Local Notation okG := (ok ge4 Itrue).
+
+  Lemma leaf_okG : forall (x : res) y, fst x <> [] -> le4 y (dv (fst x)) -> okG (fun c => (x, c)) (fun _ => y).
+  Proof.
+    intros x y Hne Hle c H HI. exists H. cbn [fst snd].
+    split; [lia|]. split; [exact I|]. split; [exact Hne | exact Hle].
+  Qed.
+
+  Lemma resolve_with_complete : forall enabled inner k y,
+    okG inner (fun _ => y) -> okG (resolve_with enabled inner k) (fun _ => y).
+  Proof.
+    intros enabled inner k y Hok c H HI. unfold resolve_with.
+    destruct enabled; [|exact (Hok c H HI)].
+    destruct (Hok c H HI) as [H1 [Hle [_ [Hne HR]]]].
+    destruct (inner c) as [[s t] c'] eqn:Hin. cbn [fst snd] in *.
+    exists H1. split; [exact Hle|]. split; [exact I|].
+    destruct (clook c k) as [b|]; cbn [fst snd].
+    - split; [apply oadd_nonempty|]. unfold ge4. rewrite dv_oadd.
+      eapply le4_trans; [exact HR | apply le4_join_r].
+    - split; [exact Hne | exact HR].
+  Qed.
+
+  Theorem checkS_complete : forall enabled f d V o r,
+    okG (chS enabled f d V o r) (fun _ => cB f d V o r).
+  Proof.
+    intros enabled. induction f as [|f IH]; intros d V o r.
+    { apply leaf_okG; [discriminate | apply le4_bot]. }
+    cbn [checkS checkB].
+    destruct (Nat.eqb d maxdepth); [apply leaf_okG; [discriminate | apply le4_bot]|].
+    destruct (existsb (atom_eqb (o, r)) V); [apply leaf_okG; [discriminate | apply le4_bot]|].
+    destruct (subject_eqb subj (SSet o r)); [apply leaf_okG; [discriminate | apply le4_refl]|].
+    destruct (get_relation m (otype o) r) as [rd|]; [|apply leaf_okG; [discriminate | apply le4_bot]].
+    destruct (negb (path_exists pathx (otype o) r)); [apply leaf_okG; [discriminate | apply le4_refl]|].
+    apply evalS_ok with (td := fun (_ : nat) o' r' => cB f (S d) ((o, r) :: V) o' r')
+                        (tc := fun (_ : nat) r' => cB f d ((o, r) :: V) o r').
+    - intros x x' y y' Hx Hy. unfold ge4 in *. apply or4_mono; assumption.
+    - intros x x' y y' Hx Hy. unfold ge4 in *. apply and4_mono; assumption.
+    - intros x x' y y' Hx Hy. unfold ge4 in *. apply excl4_mono; assumption.
+    - apply le4_refl.
+    - apply le4_refl.
+    - apply le4_refl.
+    - intros o' r' x H H' _ Hx. exact Hx.
+    - intros rd' o' r' x H H' _ Hx. exact Hx.
+    - intros rd' o' r' rw x H H' _ Hx. exact Hx.
+    - intros o' r'. apply (resolve_with_complete enabled _ (o', r')). apply IH.
+    - intros r'. apply IH.
+  Qed.
+
+  Theorem resolve_top_complete : forall enabled fuel o r,
+    okG (rtop enabled fuel o r) (fun _ => cB fuel O [] o r).
+  Proof.
+    intros enabled fuel o r. unfold resolve_top. apply resolve_with_complete. apply checkS_complete.
+  Qed.
+
+  (* ---- the uncached engine in evalS form has the same definite part as Check/V1 ---- *)
+  Local Notation okE := (ok (@eq b4) Itrue).
+
+  Theorem checkS_off_dv : forall f d V o r,
+    okE (chS false f d V o r) (fun _ => cB f d V o r).
+  Proof.
+    assert (Hleaf : forall (x : res) y, fst x <> [] -> dv (fst x) = y -> okE (fun c => (x, c)) (fun _ => y)).
+    { intros x y Hne He c H HI. exists H. cbn [fst snd]. split; [lia|]. split; [exact I|]. split; assumption. }
+    induction f as [|f IH]; intros d V o r.
+    { apply Hleaf; [discriminate | reflexivity]. }
+    cbn [checkS checkB].
+    destruct (Nat.eqb d maxdepth); [apply Hleaf; [discriminate | reflexivity]|].
+    destruct (existsb (atom_eqb (o, r)) V); [apply Hleaf; [discriminate | reflexivity]|].
+    destruct (subject_eqb subj (SSet o r)); [apply Hleaf; [discriminate | reflexivity]|].
+    destruct (get_relation m (otype o) r) as [rd|]; [|apply Hleaf; [discriminate | reflexivity]].
+    destruct (negb (path_exists pathx (otype o) r)); [apply Hleaf; [discriminate | reflexivity]|].
+    apply evalS_ok with (td := fun (_ : nat) o' r' => cB f (S d) ((o, r) :: V) o' r')
+                        (tc := fun (_ : nat) r' => cB f d ((o, r) :: V) o r').
+    - intros; subst; reflexivity.
+    - intros; subst; reflexivity.
+    - intros; subst; reflexivity.
+    - reflexivity.
+    - reflexivity.
+    - reflexivity.
+    - intros o' r' x H H' _ Hx. exact Hx.
+    - intros rd' o' r' x H H' _ Hx. exact Hx.
+    - intros rd' o' r' rw x H H' _ Hx. exact Hx.
+    - intros o' r'. unfold resolve_with. apply IH.
+    - intros r'. apply IH.
+  Qed.
+
+  Corollary check_nc_dv_V1 : forall f d V o r,
+    dv (check_nc m conds store subj pathx maxdepth f d V o r) =
+    dv (fst (check m conds store subj pathx maxdepth f d V o r)).
+  Proof.
+    intros f d V o r. rewrite check_dv. unfold check_nc.
+    destruct (checkS_off_dv f d V o r [] O I) as [_ [_ [_ [_ He]]]]. exact He.
+  Qed.
+
+  (* ================================================================ *)
+  (* the three statements for one request and ANY valid cache            *)
+  (* ================================================================ *)
+  Local Notation v1top := (fun md fuel o r => fst (check_top m conds store subj pathx md fuel o r)).
+
+  (* (a) whatever the uncached engine answers definitely, the cached engine can answer too *)
+  Theorem cached_keeps_uncached : forall c fuel o r a,
+    definite a = true -> In a (v1top maxdepth fuel o r) -> In a (fst (fst (rtop true fuel o r c))).
+  Proof.
+    intros c fuel o r a Hd Hin. apply le4_dva_In; [exact Hd|].
+    destruct (resolve_top_complete true fuel o r c O I) as [_ [_ [_ [_ HR]]]]. unfold ge4 in HR.
+    eapply le4_trans; [|exact HR]. unfold check_top in Hin. rewrite <- check_dv. apply dva_le_dv. exact Hin.
+  Qed.
+
+  (* (b) the cached engine never gives a definite answer that differs from a definite answer of the
+     uncached engine -- on any path, at any depth, with any fuel *)
+  Theorem cached_never_contradicts : forall c fuel o r a a' f d V,
+    valid c -> definite a = true -> definite a' = true ->
+    In a (fst (fst (rtop true fuel o r c))) ->
+    In a' (fst (check m conds store subj pathx maxdepth f d V o r)) -> a = a'.
+  Proof.
+    intros c fuel o r a a' f d V Hv Hd Hd' Hin Hin'.
+    destruct (resolve_top_definite true fuel o r c a Hv Hd Hin) as [h Hh].
+    assert (Hh' : le4 (dva a') (uB f o r)).
+    { eapply le4_trans; [apply dva_le_dv; exact Hin'|]. rewrite check_dv. apply checkB_le_unfoldB. }
+    apply dva_agree with (z := uB (Nat.max h f) o r); try assumption.
+    - eapply le4_trans; [exact Hh | apply unfoldB_mono; lia].
+    - eapply le4_trans; [exact Hh' | apply unfoldB_mono; lia].
+    - apply unfoldB_cons.
+  Qed.
+End Cached.
+
+(* (c) a definite answer of the cached engine is the answer of the uncached engine as soon as fuel
+   and depth limit are large enough (the depth limit is the only thing the cache can "repair") *)
+Theorem cached_answer_is_uncached_answer :
+  forall m conds store subj pathx maxdepth c fuel o r a,
+    valid m conds store subj pathx c -> definite a = true ->
+    In a (fst (fst (resolve_top m conds store subj pathx maxdepth true fuel o r c))) ->
+    exists F0, forall fuel' md', (F0 <= fuel')%nat -> (F0 <= md')%nat ->
+      In a (fst (check_top m conds store subj pathx md' fuel' o r)).
+Proof.
+  intros m conds store subj pathx maxdepth c fuel o r a Hv Hd Hin.
+  destruct (resolve_top_definite m conds store subj pathx maxdepth true fuel o r c a Hv Hd Hin) as [h Hh].
+  exists h. intros fuel' md' Hf Hm. apply le4_dva_In; [exact Hd|].
+  unfold check_top. rewrite check_dv.
+  eapply le4_trans; [exact Hh | apply unfoldB_le_checkB_top; assumption].
+Qed.
+
+(* ---- path independence of the default engine itself ---- *)
+Theorem v1_definite_path_independent :
+  forall m conds store subj pathx maxdepth f d V f' d' V' o r a a',
+    definite a = true -> definite a' = true ->
+    In a (fst (check m conds store subj pathx maxdepth f d V o r)) ->
+    In a' (fst (check m conds store subj pathx maxdepth f' d' V' o r)) -> a = a'.
+Proof.
+  intros m conds store subj pathx maxdepth f d V f' d' V' o r a a' Hd Hd' Hin Hin'.
+  assert (H1 : le4 (dva a) (unfoldB m conds store subj pathx f o r)).
+  { eapply le4_trans; [apply dva_le_dv; exact Hin|]. rewrite check_dv. apply checkB_le_unfoldB. }
+  assert (H2 : le4 (dva a') (unfoldB m conds store subj pathx f' o r)).
+  { eapply le4_trans; [apply dva_le_dv; exact Hin'|]. rewrite check_dv. apply checkB_le_unfoldB. }
+  apply dva_agree with (z := unfoldB m conds store subj pathx (Nat.max f f') o r); try assumption.
+  - eapply le4_trans; [exact H1 | apply unfoldB_mono; lia].
+  - eapply le4_trans; [exact H2 | apply unfoldB_mono; lia].
+  - apply unfoldB_cons.
+Qed.
+
+Theorem v1_definite_at_empty_path :
+  forall m conds store subj pathx maxdepth f d V o r a,
+    definite a = true -> In a (fst (check m conds store subj pathx maxdepth f d V o r)) ->
+    forall fuel' md', (f <= fuel')%nat -> (f <= md')%nat ->
+      In a (fst (check_top m conds store subj pathx md' fuel' o r)).
+Proof.
+  intros m conds store subj pathx maxdepth f d V o r a Hd Hin fuel' md' Hf Hm.
+  apply le4_dva_In; [exact Hd|]. unfold check_top. rewrite check_dv.
+  eapply le4_trans; [apply dva_le_dv; exact Hin|]. rewrite check_dv.
+  eapply le4_trans; [apply checkB_le_unfoldB | apply unfoldB_le_checkB_top; assumption].
+Qed.
+
+(* ================================================================== *)
+(* G. histories over several partitions of one cache                   *)
+(* ================================================================== *)
+
+Lemma glook_gset : forall g p c p', glook (gset g p c) p' = if N.eqb p' p then c else glook g p'.
+Proof.
+  induction g as [|[p0 c0] g IH]; intros p c p'; simpl.
+  - destruct (N.eqb p' p); reflexivity.
+  - destruct (N.eqb p p0) eqn:E; simpl.
+    + apply N.eqb_eq in E. subst p0. destruct (N.eqb p' p); reflexivity.
+    + rewrite IH. destruct (N.eqb p' p0) eqn:E2; [|reflexivity].
+      apply N.eqb_eq in E2. subst p0. rewrite N.eqb_sym in E. rewrite E. reflexivity.
+Qed.
+
+Section HistoryProofs.
+  Variable envs : N -> penv.
+
+  Definition pvalid (p : N) (c : cache) : Prop :=
+    valid (pe_model (envs p)) (pe_conds (envs p)) (pe_store (envs p)) (pe_subj (envs p)) (pe_pathx (envs p)) c.
+  (* every entry of every partition is the path-independent value of its sub-problem *)
+  Definition gvalid (g : gcache) : Prop := forall p, pvalid p (glook g p).
+
+  Lemma gvalid_nil : gvalid [].
+  Proof. intro p. apply valid_nil. Qed.
+
+  (* the answer of the uncached engine (Check/V1.v) to a request, with depth limit md *)
+  Definition uncached (fuel md : nat) (q : request) : oset :=
+    let e := envs (q_part q) in
+    fst (check_top (pe_model e) (pe_conds e) (pe_store e) (pe_subj e) (pe_pathx e) md fuel (q_obj q) (q_rel q)).
+
+  Definition answers_ok (fuel : nat) (q : request) (sc : oset) : Prop :=
+    let s := uncached fuel (pe_maxdepth (envs (q_part q))) q in
+    (forall a, definite a = true -> In a s -> In a sc) /\
+    (forall a a', definite a = true -> definite a' = true -> In a sc -> In a' s -> a = a') /\
+    (forall a, definite a = true -> In a sc ->
+       exists F0, forall fuel' md', (F0 <= fuel')%nat -> (F0 <= md')%nat -> In a (uncached fuel' md' q)).
+
+  Lemma run1_ok : forall fuel q g,
+    gvalid g -> answers_ok fuel q (fst (run1 envs true fuel q g)) /\ gvalid (snd (run1 envs true fuel q g)).
+  Proof.
+    intros fuel q g Hg. unfold run1.
+    set (e := envs (q_part q)).
+    pose proof (Hg (q_part q)) as Hv. unfold pvalid in Hv. fold e in Hv.
+    destruct (resolve_top (pe_model e) (pe_conds e) (pe_store e) (pe_subj e) (pe_pathx e) (pe_maxdepth e)
+                true fuel (q_obj q) (q_rel q) (glook g (q_part q))) as [[s t] c] eqn:Hr.
+    cbn [fst snd]. split.
+    - unfold answers_ok, uncached. fold e. split; [|split].
+      + intros a Hd Hin.
+        pose proof (cached_keeps_uncached (pe_model e) (pe_conds e) (pe_store e) (pe_subj e) (pe_pathx e)
+                      (pe_maxdepth e) (glook g (q_part q)) fuel (q_obj q) (q_rel q) a Hd Hin) as Hc.
+        rewrite Hr in Hc. exact Hc.
+      + intros a a' Hd Hd' Hin Hin'.
+        apply (cached_never_contradicts (pe_model e) (pe_conds e) (pe_store e) (pe_subj e) (pe_pathx e)
+                 (pe_maxdepth e) (glook g (q_part q)) fuel (q_obj q) (q_rel q) a a' fuel O [] Hv Hd Hd').
+        * rewrite Hr. exact Hin.
+        * exact Hin'.
+      + intros a Hd Hin.
+        apply (cached_answer_is_uncached_answer (pe_model e) (pe_conds e) (pe_store e) (pe_subj e) (pe_pathx e)
+                 (pe_maxdepth e) (glook g (q_part q)) fuel (q_obj q) (q_rel q) a Hv Hd).
+        rewrite Hr. exact Hin.
+    - intro p. rewrite glook_gset. destruct (N.eqb p (q_part q)) eqn:E; [|apply Hg].
+      apply N.eqb_eq in E. subst p. unfold pvalid. fold e.
+      pose proof (resolve_top_valid (pe_model e) (pe_conds e) (pe_store e) (pe_subj e) (pe_pathx e)
+                    (pe_maxdepth e) true fuel (q_obj q) (q_rel q) (glook g (q_part q)) Hv) as Hc.
+      rewrite Hr in Hc. exact Hc.
+  Qed.
+
+  (* for every request sequence and every cache whose entries are valid (in particular the empty
+     one, and whatever subset of the entries stored so far goroutine order, TTL and eviction left):
+     the invariant is kept and every answer is transparent *)
+  Theorem history_transparent : forall fuel qs g,
+    gvalid g ->
+    Forall2 (answers_ok fuel) qs (fst (run_history envs true fuel qs g)) /\
+    gvalid (snd (run_history envs true fuel qs g)).
+  Proof.
+    intros fuel qs. induction qs as [|q qs IH]; intros g Hg; simpl.
+    - split; [constructor | exact Hg].
+    - destruct (run1_ok fuel q g Hg) as [Ha Hg1].
+      destruct (run1 envs true fuel q g) as [s g1] eqn:H1. cbn [fst snd] in *.
+      destruct (IH g1 Hg1) as [Hrest Hg2].
+      destruct (run_history envs true fuel qs g1) as [ss g2] eqn:H2. cbn [fst snd] in *.
+      split; [constructor; assumption | exact Hg2].
+  Qed.
+
+  (* with caching disabled the history model is the default-engine model (definite parts) *)
+  Theorem history_off_is_V1 : forall fuel qs g,
+    Forall2 (fun q s => dv s = dv (uncached fuel (pe_maxdepth (envs (q_part q))) q))
+            qs (fst (run_history envs false fuel qs g)).
+  Proof.
+    intros fuel qs. induction qs as [|q qs IH]; intro g; simpl; [constructor|].
+    unfold run1 at 1. set (e := envs (q_part q)).
+    destruct (checkS_off_dv (pe_model e) (pe_conds e) (pe_store e) (pe_subj e) (pe_pathx e) (pe_maxdepth e)
+                fuel O [] (q_obj q) (q_rel q) (glook g (q_part q)) O I) as [_ [_ [_ [_ He]]]].
+    unfold resolve_top, resolve_with.
+    destruct (checkS (pe_model e) (pe_conds e) (pe_store e) (pe_subj e) (pe_pathx e) (pe_maxdepth e)
+                false fuel O [] (q_obj q) (q_rel q) (glook g (q_part q))) as [[s t] c] eqn:Hc.
+    cbn [fst snd] in *.
+    specialize (IH (gset g (q_part q) c)).
+    destruct (run_history envs false fuel qs (gset g (q_part q) c)) as [ss g2]. cbn [fst snd] in *.
+    constructor; [|exact IH].
+    unfold uncached, check_top. fold e. rewrite check_dv. exact He.
+  Qed.
+End HistoryProofs.
+
+(* ================================================================== *)
+(* H. the weighted-graph engine's edge cache (abstract model)           *)
+(* ================================================================== *)
+
+(* the F3 graph: with the edge cache the second request is answered `false`, without it `true` *)
+Theorem v2_edge_cache_refuted_witness :
+  v2_run f3_succ f3_hit f3_cyc true false 10 f3_requests [] = Some [true; false] /\
+  v2_run f3_succ f3_hit f3_cyc false false 10 f3_requests [] = Some [true; true].
+Proof. split; vm_compute; reflexivity. Qed.
+
+Section V2Proofs.
+  Variable succ : N -> list N.
+  Variable hit : N -> bool.
+  Variable cyc : N -> bool.
+  Variable cache_on : bool.
+  Variable fixed : bool.
+  (* either the cache is off, or it is the fixed variant *)
+  Hypothesis Hcfg : cache_on = true -> fixed = true.
+
+  Local Notation rh := (reach_hit succ hit).
+  Local Notation ev := (eval succ hit cache_on fixed).
+
+  Definition ecache_ok (c : ecache) : Prop :=
+    forall n b, elook c n = Some b -> (b = true <-> rh n).
+
+  Lemma ecache_ok_nil : ecache_ok [].
+  Proof. intros n b H. discriminate H. Qed.
+
+  Lemma ecache_ok_cons : forall c n b, ecache_ok c -> (b = true <-> rh n) -> ecache_ok ((n, b) :: c).
+  Proof.
+    intros c n b Hc Hb n' b' Hl. simpl in Hl. destruct (N.eqb n' n) eqn:E; [|exact (Hc n' b' Hl)].
+    apply N.eqb_eq in E. subst n'. inversion Hl; subst b'. exact Hb.
+  Qed.
+
+  Lemma nmem_In : forall n l, nmem n l = true <-> In n l.
+  Proof.
+    intros n l. unfold nmem. rewrite existsb_exists. split.
+    - intros [x [Hx He]]. apply N.eqb_eq in He. subst x. exact Hx.
+    - intro H. exists n. split; [exact H | apply N.eqb_refl].
+  Qed.
+
+  Lemma rh_inv : forall n, rh n -> hit n = true \/ exists w, In w (succ n) /\ rh w.
+  Proof. intros n H. inversion H; subst; [left; assumption | right; eauto]. Qed.
+
+  (* ---- without a visited set: plain recursion, exact ---- *)
+  Definition none_spec (f : nat) : Prop :=
+    forall n c r vis' c', ecache_ok c -> ev f n None c = Some (r, vis', c') ->
+      ecache_ok c' /\ (r = true <-> rh n).
+
+  Lemma kids_none : forall f, none_spec f ->
+    forall l acc c b vis' c', ecache_ok c -> kids (ev f) l acc None c = Some (b, vis', c') ->
+      ecache_ok c' /\ (b = true <-> acc = true \/ exists k, In k l /\ rh k).
+  Proof.
+    intros f Hf. induction l as [|k l IH]; intros acc c b vis' c' Hc Hk; simpl in Hk.
+    - inversion Hk; subst. split; [exact Hc|]. split; [auto | intros [H|[k [[] _]]]; exact H].
+    - destruct (ev f k None c) as [[[bk vk] ck]|] eqn:Hek; [|discriminate Hk].
+      destruct (Hf k c bk vk ck Hc Hek) as [Hck Hbk].
+      destruct (IH (acc || bk) ck b vis' c' Hck Hk) as [Hc' Hb].
+      split; [exact Hc'|]. rewrite Hb, orb_true_iff, Hbk. split.
+      + intros [[H|H]|[k' [Hin Hr]]]; [auto | right; exists k; simpl; auto | right; exists k'; simpl; auto].
+      + intros [H|[k' [[Hin|Hin] Hr]]]; [auto | subst k'; auto | right; exists k'; auto].
+  Qed.
+
+  Lemma eval_none : forall f, none_spec f.
+  Proof.
+    induction f as [|f IH]; intros n c r vis' c' Hc He; [discriminate He|].
+    cbn [eval] in He.
+    destruct (if cache_on then elook c n else None) as [b0|] eqn:Hl.
+    - inversion He; subst. destruct cache_on; [|discriminate Hl].
+      split; [exact Hc | exact (Hc n r Hl)].
+    - destruct (kids (ev f) (succ n) false None c) as [[[b vk] ck]|] eqn:Hk; [|discriminate He].
+      inversion He; subst. clear He.
+      destruct (kids_none f IH (succ n) false c b vis' ck Hc Hk) as [Hck Hb].
+      assert (Hr : hit n || b = true <-> rh n).
+      { rewrite orb_true_iff, Hb. split.
+        - intros [H|[H|[k [Hin Hr]]]]; [apply rh_hit; exact H | discriminate H | exact (rh_step _ _ n k Hin Hr)].
+        - intro H. apply rh_inv in H. destruct H as [H|[w [Hin Hr]]]; [auto | right; right; exists w; auto]. }
+      split; [|exact Hr].
+      match goal with |- ecache_ok (if ?x then _ else _) => destruct x end; [|exact Hck].
+      apply ecache_ok_cons; assumption.
+  Qed.
+
+  (* ---- with the shared visited set ---- *)
+  (* what is known about a node v once the evaluation returned r with visited set W: either the
+     answer already accounts for everything v reaches, or v was expanded (its own hit is in r and
+     all its successors are visited) *)
+  Definition Q (v : N) (r : bool) (W : list N) : Prop :=
+    (rh v -> r = true) \/ ((hit v = true -> r = true) /\ forall w, In w (succ v) -> In w W).
+
+  Lemma Q_mono : forall v r r' W W',
+    Q v r W -> (r = true -> r' = true) -> incl W W' -> Q v r' W'.
+  Proof.
+    intros v r r' W W' [H|[H1 H2]] Hr HW; [left; auto | right; split; [auto | intros w Hw; apply HW, H2, Hw]].
+  Qed.
+
+  Definition some_spec (f : nat) : Prop :=
+    forall n vs c r vis' c', ecache_ok c -> ev f n (Some vs) c = Some (r, vis', c') ->
+      exists vs', vis' = Some vs' /\ incl vs vs' /\ ecache_ok c' /\ (r = true -> rh n) /\
+                  Q n r vs' /\ (forall v, In v vs' -> ~ In v vs -> Q v r vs').
+
+  Lemma kids_some : forall f, some_spec f ->
+    forall l acc vs c b vis' c', ecache_ok c -> kids (ev f) l acc (Some vs) c = Some (b, vis', c') ->
+      exists vs', vis' = Some vs' /\ incl vs vs' /\ ecache_ok c' /\
+                  (b = true -> acc = true \/ exists k, In k l /\ rh k) /\ (acc = true -> b = true) /\
+                  (forall k, In k l -> In k vs') /\ (forall v, In v vs' -> ~ In v vs -> Q v b vs').
+  Proof.
+    intros f Hf. induction l as [|k l IH]; intros acc vs c b vis' c' Hc Hk; simpl in Hk.
+    - inversion Hk; subst. exists vs. split; [reflexivity|]. split; [apply incl_refl|]. split; [exact Hc|].
+      split; [auto|]. split; [auto|]. split; [intros k []|]. intros v Hv Hn. contradiction.
+    - destruct (nmem k vs) eqn:Hm.
+      + destruct (IH acc vs c b vis' c' Hc Hk) as [vs' [Hv [Hi [Hc' [Hb [Ha [Hl Hq]]]]]]].
+        exists vs'. split; [exact Hv|]. split; [exact Hi|]. split; [exact Hc'|].
+        split; [intro H; destruct (Hb H) as [H'|[k' [Hin Hr]]]; [auto | right; exists k'; simpl; auto]|].
+        split; [exact Ha|]. split; [|exact Hq].
+        intros k' [Hk'|Hk']; [subst k'; apply Hi, nmem_In, Hm | apply Hl, Hk'].
+      + destruct (ev f k (Some (k :: vs)) c) as [[[bk vk] ck]|] eqn:Hek; [|discriminate Hk].
+        destruct (Hf k (k :: vs) c bk vk ck Hc Hek) as [vs1 [Hv1 [Hi1 [Hc1 [Hs1 [Hq1 Hn1]]]]]]. subst vk.
+        destruct (IH (acc || bk) vs1 ck b vis' c' Hc1 Hk) as [vs' [Hv [Hi [Hc' [Hb [Ha [Hl Hq]]]]]]].
+        assert (Hbk : bk = true -> b = true) by (intro H; apply Ha; rewrite H; apply orb_true_r).
+        exists vs'. split; [exact Hv|].
+        split; [intros x Hx; apply Hi, Hi1; right; exact Hx|]. split; [exact Hc'|].
+        split.
+        { intro H. destruct (Hb H) as [H'|[k' [Hin Hr]]].
+          - apply orb_true_iff in H'. destruct H' as [H'|H']; [auto | right; exists k; simpl; auto].
+          - right; exists k'; simpl; auto. }
+        split; [intro H; apply Ha; rewrite H; reflexivity|].
+        split; [intros k' [Hk'|Hk']; [subst k'; apply Hi, Hi1; left; reflexivity | apply Hl, Hk']|].
+        intros v Hv' Hnv.
+        destruct (in_dec N.eq_dec v vs1) as [Hin1|Hnin1]; [|exact (Hq v Hv' Hnin1)].
+        (* v became visited during the evaluation of k *)
+        destruct (N.eq_dec v k) as [Hvk|Hvk].
+        * subst v. apply Q_mono with (r := bk) (W := vs1); [exact Hq1 | exact Hbk | exact Hi].
+        * apply Q_mono with (r := bk) (W := vs1); [|exact Hbk | exact Hi].
+          apply Hn1; [exact Hin1|]. intros [H|H]; [apply Hvk; symmetry; exact H | exact (Hnv H)].
+  Qed.
+
+  Lemma eval_some : forall f, some_spec f.
+  Proof.
+    induction f as [|f IH]; intros n vs c r vis' c' Hc He; [discriminate He|].
+    cbn [eval] in He.
+    destruct (if cache_on then elook c n else None) as [b0|] eqn:Hl.
+    - inversion He; subst. destruct cache_on; [|discriminate Hl].
+      pose proof (Hc n r Hl) as Hr.
+      exists vs. split; [reflexivity|]. split; [apply incl_refl|]. split; [exact Hc|].
+      split; [apply Hr|]. split; [left; apply Hr|]. intros v Hv Hn. contradiction.
+    - destruct (kids (ev f) (succ n) false (Some vs) c) as [[[b vk] ck]|] eqn:Hk; [|discriminate He].
+      inversion He; subst. clear He.
+      destruct (kids_some f IH (succ n) false vs c b vis' ck Hc Hk) as [vs' [Hv [Hi [Hck [Hb [_ [Hl' Hq]]]]]]].
+      assert (Hsound : hit n || b = true -> rh n).
+      { intro H. apply orb_true_iff in H. destruct H as [H|H]; [apply rh_hit; exact H|].
+        destruct (Hb H) as [H'|[k [Hin Hr]]]; [discriminate H' | exact (rh_step _ _ n k Hin Hr)]. }
+      exists vs'. split; [exact Hv|]. split; [exact Hi|].
+      split.
+      { destruct cache_on eqn:Hon; [|exact Hck]. rewrite (Hcfg eq_refl). simpl.
+        rewrite orb_false_r. destruct (hit n || b) eqn:Hr; [|exact Hck].
+        apply ecache_ok_cons; [exact Hck|]. split; [intros _; apply Hsound; reflexivity | reflexivity]. }
+      split; [exact Hsound|].
+      split.
+      { right. split; [intro H; rewrite H; reflexivity | exact Hl']. }
+      intros v Hv' Hnv. apply Q_mono with (r := b) (W := vs'); [exact (Hq v Hv' Hnv) | | apply incl_refl].
+      intro H; rewrite H; apply orb_true_r.
+  Qed.
+
+  (* every node of a visited set all of whose members satisfy Q: reaching a hit forces the answer *)
+  Lemma Q_closed_complete : forall r W,
+    (forall v, In v W -> Q v r W) -> forall v, rh v -> In v W -> r = true.
+  Proof.
+    intros r W HW v Hr. induction Hr as [v Hh|v w Hw Hr IH]; intro Hin.
+    - destruct (HW v Hin) as [H|[H _]]; [apply H; apply rh_hit; exact Hh | exact (H Hh)].
+    - destruct (HW v Hin) as [H|[_ H]]; [apply H; exact (rh_step _ _ v w Hw Hr) | exact (IH (H w Hw))].
+  Qed.
+
+  (* one request answers reachability, and keeps the cache correct *)
+  Theorem request_correct : forall fuel n c b c',
+    ecache_ok c -> v2_request succ hit cyc cache_on fixed fuel n c = Some (b, c') ->
+    (b = true <-> rh n) /\ ecache_ok c'.
+  Proof.
+    intros fuel n c b c' Hc Hr. unfold v2_request in Hr.
+    destruct (cyc n).
+    - destruct (ev fuel n (Some [n]) c) as [[[r vis'] c1]|] eqn:He; [|discriminate Hr].
+      inversion Hr; subst. clear Hr.
+      destruct (eval_some fuel n [n] c b vis' c' Hc He) as [vs' [_ [Hi [Hc' [Hs [Hq Hn]]]]]].
+      split; [|exact Hc']. split; [exact Hs|].
+      intro Hrh. apply (Q_closed_complete b vs') with (v := n); [|exact Hrh | apply Hi; left; reflexivity].
+      intros v Hv. destruct (N.eq_dec v n) as [E|E]; [subst v; exact Hq|].
+      apply Hn; [exact Hv|]. intros [H|[]]. apply E. symmetry. exact H.
+    - destruct (ev fuel n None c) as [[[r vis'] c1]|] eqn:He; [|discriminate Hr].
+      inversion Hr; subst. clear Hr.
+      destruct (eval_none fuel n c b vis' c' Hc He) as [Hc' Hb]. split; assumption.
+  Qed.
+
+  Theorem v2_run_correct : forall fuel reqs c bs,
+    ecache_ok c -> v2_run succ hit cyc cache_on fixed fuel reqs c = Some bs ->
+    Forall2 (fun n b => b = true <-> rh n) reqs bs.
+  Proof.
+    intros fuel reqs. induction reqs as [|n reqs IH]; intros c bs Hc Hr; simpl in Hr.
+    - inversion Hr; subst. constructor.
+    - destruct (v2_request succ hit cyc cache_on fixed fuel n c) as [[b c']|] eqn:Hq; [|discriminate Hr].
+      destruct (request_correct fuel n c b c' Hc Hq) as [Hb Hc'].
+      destruct (v2_run succ hit cyc cache_on fixed fuel reqs c') as [bs'|] eqn:Hrest; [|discriminate Hr].
+      inversion Hr; subst. constructor; [exact Hb | exact (IH c' bs' Hc' Hrest)].
+  Qed.
+End V2Proofs.
+
+(* the fixed variant (store an edge result only when it is `allowed` or was computed without a
+   visited set) is transparent: for every graph, every request sequence, every fuel -- whenever
+   neither run exhausts its fuel -- the answers with the cache are the answers without it (and
+   both are plain reachability) *)
+Theorem v2_fixed_transparent : forall succ hit cyc fuel reqs c bs_on bs_off fx,
+  ecache_ok succ hit c ->
+  v2_run succ hit cyc true true fuel reqs c = Some bs_on ->
+  v2_run succ hit cyc false fx fuel reqs [] = Some bs_off ->
+  bs_on = bs_off.
+Proof.
+  intros succ hit cyc fuel reqs c bs_on bs_off fx Hc Hon Hoff.
+  assert (H1 := v2_run_correct succ hit cyc true true (fun _ => eq_refl) fuel reqs c bs_on Hc Hon).
+  assert (H2 := v2_run_correct succ hit cyc false fx (fun H => False_ind _ (Bool.diff_false_true H))
+                  fuel reqs [] bs_off (ecache_ok_nil succ hit) Hoff).
+  clear Hon Hoff. revert bs_off H2. induction H1 as [|n b reqs bs Hb Hrest IH]; intros bs_off H2; inversion H2; subst.
+  - reflexivity.
+  - f_equal; [|apply IH; assumption].
+    match goal with Hy : _ = true <-> reach_hit succ hit n |- _ => rename Hy into Hb' end.
+    destruct b, y; try reflexivity.
+    + symmetry. apply Hb'. apply Hb. reflexivity.
+    + apply Hb. apply Hb'. reflexivity.
+Qed.
+
